@@ -10,10 +10,19 @@
   does not contain the delimiter `d`, the comment token `cm`, or a newline, and does not begin or end with
   whitespace (`line.strip()` would eat it); `DelimOK`: the delimiter is not the comment token or the newline.
   They hold for every int label as soon as delimiter and comment token are not a digit or `-` (`tokOK_int`).
+
+  Section (e): the two JSON file formats as whole files (`write_hif`/`read_hif`, `write_json`/`read_json` of
+  `XgiModel/C11/Hif.lean`, which the driver runs for the requests "hif" / "jsonfull") = `json.dumps`/`json.loads`
+  (abstract `JsonLayer`, hypothesis `RoundTrip`) around the dict converters of the C10 model; the theorems compose
+  that hypothesis with C10's `hif_rt`, `hifDi_rt`, `hif_rt_sc`, `hypergraphDict_rt` (imported from Props/C10).
 -/
 import XgiModel.C11.Lemmas
+import XgiModel.C11.LemmasHif
+import XgiModel.Props.C10
 
 namespace Xgi.C11
+
+open Xgi.C10 (ANet ADiNet Hif HDict Inc DInc DWF AWF ADWF SCWF SCClosed hasSimplex dEdgeIds IdType strCast)
 
 /-! ### (a) edge list -/
 
@@ -289,29 +298,87 @@ theorem json_keys (nty ety : Ty) (h : TNet) (hn : h.nodes.Nodup) (he : (h.edges.
   rw [foldl_addEdge h.edges [] h.nodes (by simpa using he) hm]
   simp
 
-/-- colliding string forms (e.g. node IDs `2` and `"2"`) are refused by the writer with the library's error -/
-theorem json_write_collision (h : TNet)
-    (hc : ¬ (h.nodes.map renderAtom).Nodup ∨ ¬ (h.edges.map (fun e => renderAtom e.1)).Nodup) :
-    jsonWrite h = .err .lib := by
-  unfold jsonWrite
-  by_cases h1 : (dedup (h.nodes.map renderAtom)).length = h.nodes.length
-  · have hn : (h.nodes.map renderAtom).Nodup := nodup_of_length_dedup (by simpa using h1)
-    have h2 : (dedup (h.edges.map (fun e => renderAtom e.1))).length ≠ h.edges.length := by
-      intro h2
-      have : (h.edges.map (fun e => renderAtom e.1)).Nodup := nodup_of_length_dedup (by simpa using h2)
-      rcases hc with hc | hc <;> contradiction
-    simp [h1, h2]
-  · simp [h1]
+/-! ### (e) the JSON file formats as whole files: `write_hif` / `read_hif`, `write_json` / `read_json`
 
-/-- HIF stores IDs as JSON *values*: int and str IDs come back unchanged with no `nodetype`/`edgetype` at all -/
-theorem hif_ids_need_no_cast (a : Atom) : idOfJVal .none (idToJVal a) = .ok a := by
-  cases a <;> rfl
+  `write_hif = json.dumps ∘ to_hif_dict`, `read_hif = from_hif_dict ∘ json.loads` (C11/Hif.lean); the dict-level
+  functions are C10's model, the `json` module is the abstract `JsonLayer` with the explicit hypothesis
+  `J.RoundTrip`.  (The definitional facts `hif_ids_need_no_cast`, `hif_ids_cast`, `json_write_collision` live in
+  C11/Lemmas.lean.) -/
 
-/-- … and an explicit cast that matches the ID's type is harmless -/
-theorem hif_ids_cast (i : Int) (s : String) :
-    idOfJVal .int (idToJVal (.int i)) = .ok (.int i) ∧ idOfJVal .str (idToJVal (.str s)) = .ok (.str s) :=
-  ⟨rfl, rfl⟩
+/-- `read_hif(write_hif(H))` for a Hypergraph: a Hypergraph again, with the same node set (isolated nodes
+    included), the same edge-ID set (empty edges included), the same labelled incidences, and the same network,
+    node and edge attributes (attribute keys are arbitrary strings) -/
+theorem write_hif_read_hif_rt {Doc : Type} (J : JsonLayer Hif Doc) (hJ : J.RoundTrip) (a : ANet) (hw : AWF a)
+    (hc : a.cls = .hg) :
+    ∃ r, readHif J (writeHif J (.inl a)) = .inl r ∧ r.cls = .hg ∧
+      (∀ n, n ∈ r.net.nodes ↔ n ∈ a.net.nodes) ∧
+      (∀ e, e ∈ r.net.edgeIds ↔ e ∈ a.net.edgeIds) ∧
+      (∀ n e, Inc r.net n e ↔ Inc a.net n e) ∧
+      r.gattr = a.gattr ∧
+      (∀ n ∈ a.net.nodes, r.nattr n = a.nattr n) ∧
+      (∀ e ∈ a.net.edgeIds, r.eattr e = a.eattr e) ∧ r.net.WF := by
+  obtain ⟨r1, r2, r3, r4, r5, r6, r7, r8⟩ := C10.hif_rt a hw
+  exact ⟨_, by rw [readHif_writeHif J hJ, fromHif_toHif_hg a hc], r8, r1, r2, r3, r4, r5, r6, r7⟩
 
+/-- `read_hif(write_hif(H))` for a DiHypergraph: a DiHypergraph again, with the same node set, the same edge-ID
+    set (empty edges included), the same incidences *with their direction* (tail / head), and the same network,
+    node and edge attributes -/
+theorem write_hif_read_hif_rt_di {Doc : Type} (J : JsonLayer Hif Doc) (hJ : J.RoundTrip) (a : ADiNet) (hw : ADWF a) :
+    ∃ r, readHif J (writeHif J (.inr a)) = .inr r ∧
+      (∀ n, n ∈ r.net.nodes ↔ n ∈ a.net.nodes) ∧
+      (∀ e, e ∈ dEdgeIds r.net ↔ e ∈ dEdgeIds a.net) ∧
+      (∀ n e d, DInc r.net n e d ↔ DInc a.net n e d) ∧
+      r.gattr = a.gattr ∧
+      (∀ n ∈ a.net.nodes, r.nattr n = a.nattr n) ∧
+      (∀ e ∈ dEdgeIds a.net, r.eattr e = a.eattr e) ∧ DWF r.net :=
+  ⟨_, by rw [readHif_writeHif_di J hJ, fromHif_toHifDi a], C10.hifDi_rt a hw⟩
+
+/-- `read_hif(write_hif(S))` for a SimplicialComplex as xgi stores one (`SCWF`: no empty simplex, no two
+    simplices with the same member set): a SimplicialComplex again, same node set, node and network attributes;
+    every source simplex keeps its ID, its member set and its attributes; the result is closed under faces and
+    every simplex of it lies inside a source simplex; and when the source is closed under faces (`SCClosed`) the
+    edge-ID set and the labelled incidences are exactly the source's -/
+theorem write_hif_read_hif_rt_sc {Doc : Type} (J : JsonLayer Hif Doc) (hJ : J.RoundTrip) (a : ANet) (hw : AWF a)
+    (hc : a.cls = .sc) (hsc : SCWF a.net) :
+    ∃ r, readHif J (writeHif J (.inl a)) = .inl r ∧ r.cls = .sc ∧ (∀ n, n ∈ r.net.nodes ↔ n ∈ a.net.nodes) ∧
+      r.gattr = a.gattr ∧
+      (∀ n ∈ a.net.nodes, r.nattr n = a.nattr n) ∧
+      (∀ p ∈ a.net.edges, p.2 ≠ [] → hasSimplex r.net.edges p.2 = true) ∧
+      (∀ q ∈ r.net.edges, ∀ f : List PyId, f.Sublist q.2 → 2 ≤ f.length → hasSimplex r.net.edges f = true) ∧
+      (∀ q ∈ r.net.edges, ∃ p ∈ a.net.edges, ∀ x ∈ q.2, x ∈ p.2) ∧
+      (∀ p ∈ a.net.edges, ∃ q ∈ r.net.edges, q.1 = p.1 ∧ ∀ x, x ∈ q.2 ↔ x ∈ p.2) ∧
+      (∀ e ∈ a.net.edgeIds, r.eattr e = a.eattr e) ∧
+      (SCClosed a.net → (∀ e, e ∈ r.net.edgeIds ↔ e ∈ a.net.edgeIds) ∧ (∀ n e, Inc r.net n e ↔ Inc a.net n e)) := by
+  obtain ⟨r, h0, h⟩ := C10.hif_rt_sc a hw hc hsc
+  exact ⟨r, by rw [readHif_writeHif J hJ, h0], h⟩
+
+/-- `read_json(write_json(H), nodetype, edgetype)`: when the casts `nodetype` / `edgetype` undo `str` on the IDs
+    and every member set can be sorted, the file is written and reads back with the same node list (isolated
+    nodes, order), the same edge IDs (empty edges, order), the same labelled incidences and all three levels of
+    attributes -/
+theorem write_json_read_json_rt {Doc : Type} (J : JsonLayer HDict Doc) (hJ : J.RoundTrip)
+    (cast : PyId → String) (un ue : String → Except C10.Err PyId) (a : ANet) (hw : AWF a)
+    (hun : ∀ x ∈ a.net.nodes, un (cast x) = .ok x) (hue : ∀ e ∈ a.net.edgeIds, ue (cast e) = .ok e)
+    (hs : ∀ p ∈ a.net.edges, (C10.sortIds p.2).isSome) :
+    ∃ doc r, writeJson J cast a = .ok doc ∧ readJson J un ue doc = .ok r ∧
+      r.net.nodes = a.net.nodes ∧ r.net.edgeIds = a.net.edgeIds ∧
+      (∀ n e, Inc r.net n e ↔ Inc a.net n e) ∧
+      r.gattr = a.gattr ∧ (∀ n ∈ a.net.nodes, r.nattr n = a.nattr n) ∧ (∀ e ∈ a.net.edgeIds, r.eattr e = a.eattr e) := by
+  obtain ⟨d, r, h1, h2, h⟩ := C10.hypergraphDict_rt cast un ue a hw hun hue hs
+  exact ⟨J.dumps d, r, writeJson_ok J cast a d h1, by rw [readJson_dumps J hJ, h2], h⟩
+
+/-- … with the casts the driver runs (`strCast` = `str`; `nodetype` / `edgetype` = `int` or `None`), in all four
+    combinations node IDs int | str × edge IDs int | str: the cast hypotheses hold and member sets of one type
+    can be sorted -/
+theorem write_json_read_json_rt_int_str {Doc : Type} (J : JsonLayer HDict Doc) (hJ : J.RoundTrip)
+    (tn te : IdType) (a : ANet) (hw : AWF a)
+    (hn : ∀ x ∈ a.net.nodes, tn.Holds x) (he : ∀ e ∈ a.net.edgeIds, te.Holds e) :
+    ∃ doc r, writeJson J strCast a = .ok doc ∧ readJson J tn.uncast te.uncast doc = .ok r ∧
+      r.net.nodes = a.net.nodes ∧ r.net.edgeIds = a.net.edgeIds ∧
+      (∀ n e, Inc r.net n e ↔ Inc a.net n e) ∧
+      r.gattr = a.gattr ∧ (∀ n ∈ a.net.nodes, r.nattr n = a.nattr n) ∧ (∀ e ∈ a.net.edgeIds, r.eattr e = a.eattr e) := by
+  obtain ⟨d, r, h1, h2, h⟩ := C10.hypergraphDict_rt_int_str tn te a hw hn he
+  exact ⟨J.dumps d, r, writeJson_ok J strCast a d h1, by rw [readJson_dumps J hJ, h2], h⟩
 /-! ### non-vacuity: concrete inputs satisfy the hypotheses / evaluate as stated -/
 
 -- int labels incl. a negative one and 0, delimiter "|", nodetype=int
@@ -370,5 +437,35 @@ example : (jsonWrite ⟨[.int 1, .int 2], [(.int 0, [.int 1, .int 2])]⟩).bind 
     .ok ⟨[.str "1", .str "2"], [(.str "0", [.str "1", .str "2"])]⟩ := by decide
 example : jsonWrite ⟨[.int 2, .str "2"], []⟩ = .err .lib := by decide
 example : idOfJVal .none (idToJVal (.int 1)) = .ok (.int 1) := rfl
+
+-- the JSON layer: the identity layer (what the driver runs) round-trips …
+example : (idLayer Hif).RoundTrip := fun _ => rfl
+example : (idLayer HDict).RoundTrip := idLayer_roundTrip _
+/-- … a layer whose `loads` forgets the metadata does not, and does NOT give the network attributes back (the
+    hypothesis `RoundTrip` of `write_hif_read_hif_rt` is used) -/
+def forgetful : JsonLayer Hif Hif := ⟨id, fun d => { d with metadata := [] }⟩
+example : ¬ forgetful.RoundTrip := fun h => by
+  have := congrArg C10.Hif.metadata (h (C10.toHif C10.exKeys))
+  revert this; decide
+example : (match readHif forgetful (writeHif forgetful (.inl C10.exKeys)) with | .inl r => r.gattr | .inr r => r.gattr) = [] := by
+  decide
+example : (match readHif (idLayer Hif) (writeHif (idLayer Hif) (.inl C10.exKeys)) with | .inl r => r.gattr | .inr r => r.gattr) =
+    C10.exKeys.gattr := by decide
+-- attribute keys spelled like parameters (`node` on the isolated node 9, `idx` / `members` on the empty edge x)
+-- come back through the HIF file
+example : (match readHif (idLayer Hif) (writeHif (idLayer Hif) (.inl C10.exKeys)) with
+    | .inl r => (r.net.nodes, r.nattr (.int 9), r.eattr (.str "x")) | .inr _ => ([], [], [])) =
+    ([.int 1, .int 2, .int 9], [("node", .sc (.int 3))], [("idx", .sc (.int 1)), ("members", .sc (.str "r"))]) := by decide
+example : AWF C10.exKeys ∧ C10.exKeys.cls = .hg :=
+  ⟨⟨by unfold Net.WF C10.exKeys; decide, by unfold C10.AttrsWF C10.exKeys; decide,
+    by unfold C10.AttrsWF C10.exKeys; decide, by unfold C10.AttrsWF C10.exKeys Net.edgeIds; decide⟩, rfl⟩
+-- a stored, closed simplicial complex satisfies the hypotheses of `write_hif_read_hif_rt_sc`
+example : SCWF C10.exSC.net ∧ SCClosed C10.exSC.net ∧ C10.exSC.cls = .sc :=
+  ⟨⟨by unfold C10.exSC; decide, by unfold C10.exSC; decide⟩, by unfold SCClosed C10.exSC; decide, rfl⟩
+-- a directed network through the HIF file
+example : (match readHif (idLayer Hif) (writeHif (idLayer Hif)
+      (.inr { net := C10.exDi, nattr := fun _ => [], eattr := fun _ => [], gattr := [] })) with
+    | .inr r => r.net.edges | .inl _ => []) =
+    [(.int 0, [.int 1, .int 2], [.int 3]), (.int 7, [.int 1], [.int 1, .int 3]), (.int 5, [], [])] := by decide
 
 end Xgi.C11
